@@ -2,6 +2,7 @@ package main
 
 import (
 	"bytes"
+	"github.com/vulcand/oxy/v2/verifhook"
 	"io"
 	"math/rand"
 	"net/http"
@@ -109,31 +110,91 @@ func stressMetrics(cfg M, tr *Trace, seed int64) {
 func stressRate(cfg M, tr *Trace, seed int64) {
 	freeze()
 	tr.Emit(M{"e": "Reset", "scn": "rate", "cfg": M{}})
-	var ok sync.Map
-	h := http.HandlerFunc(func(w http.ResponseWriter, req *http.Request) {
-		c, _ := ok.LoadOrStore(req.Header.Get("X-Src"), new(atomic.Int64))
-		c.(*atomic.Int64).Add(1)
-	})
-	ex, _ := utils.NewExtractor("request.header.X-Src")
-	rs := ratelimit.NewRateSet()
 	burst := numOr(cfg, "burst", 40)
-	rs.Add(time.Hour, 1, int64(burst))
-	tl, err := ratelimit.New(h, ex, rs, ratelimit.Capacity(64))
-	if err != nil {
-		fatal("ratelimit.New: %v", err)
-	}
 	nsrc := numOr(cfg, "sources", 5)
-	parallel(numOr(cfg, "goroutines", 12), func(i int, r *rand.Rand) {
-		for k := 0; k < numOr(cfg, "ops", 200); k++ {
-			req := httptest.NewRequest(http.MethodGet, "http://front/", nil)
-			req.Header.Set("X-Src", "s"+strconv.Itoa(r.Intn(nsrc)))
-			tl.ServeHTTP(httptest.NewRecorder(), req)
+	// several rounds, each on a fresh limiter: the first requests of every source (where its bucket set is created) race
+	rounds := numOr(cfg, "rounds", 30)
+	total, worst := int64(0), int64(burst)
+	for round := 0; round < rounds; round++ {
+		var ok sync.Map
+		h := http.HandlerFunc(func(w http.ResponseWriter, req *http.Request) {
+			c, _ := ok.LoadOrStore(req.Header.Get("X-Src"), new(atomic.Int64))
+			c.(*atomic.Int64).Add(1)
+		})
+		ex, _ := utils.NewExtractor("request.header.X-Src")
+		rs := ratelimit.NewRateSet()
+		rs.Add(time.Hour, 1, int64(burst))
+		tl, err := ratelimit.New(h, ex, rs, ratelimit.Capacity(64), ratelimit.Logger(jitterLogger{}))
+		if err != nil {
+			fatal("ratelimit.New: %v", err)
 		}
-	}, seed)
-	for s := 0; s < nsrc; s++ {
-		c, _ := ok.LoadOrStore("s"+strconv.Itoa(s), new(atomic.Int64))
-		tr.Emit(M{"e": "Totals", "what": "admitted of s" + strconv.Itoa(s), "expect": burst, "got": c.(*atomic.Int64).Load()})
+		ops := numOr(cfg, "ops", 200)
+		if round > 0 {
+			ops = 40
+		}
+		parallel(numOr(cfg, "goroutines", 12), func(i int, r *rand.Rand) {
+			for k := 0; k < ops; k++ {
+				req := httptest.NewRequest(http.MethodGet, "http://front/", nil)
+				req.Header.Set("X-Src", "s"+strconv.Itoa(r.Intn(nsrc)))
+				tl.ServeHTTP(httptest.NewRecorder(), req)
+			}
+		}, seed+int64(round))
+		for s := 0; s < nsrc; s++ {
+			c, _ := ok.LoadOrStore("s"+strconv.Itoa(s), new(atomic.Int64))
+			n := c.(*atomic.Int64).Load()
+			total += n
+			if n != int64(burst) && (n > worst || worst == int64(burst)) {
+				worst = n
+			}
+		}
 	}
+	tr.Emit(M{"e": "Totals", "what": "admitted over all rounds and sources", "expect": rounds * nsrc * burst, "got": total})
+	tr.Emit(M{"e": "Totals", "what": "admitted of one source in one round (worst)", "expect": burst, "got": worst})
+}
+
+// stressTTL: the TTL map used directly by several goroutines (it has its own lock and is usable without the rate limiter's):
+// every round an entry is left to expire, then readers (Get) and writers (Increment with a fresh lifetime) hit it together.
+// Whatever the interleaving, afterwards the key holds a live entry worth 1 or 2 and nothing panicked.
+func stressTTL(cfg M, tr *Trace, seed int64) {
+	freeze()
+	tr.Emit(M{"e": "Reset", "scn": "ttl", "cfg": M{}})
+	rounds := numOr(cfg, "rounds", 3000)
+	var panics, present atomic.Int64
+	valuesOK := int64(0)
+	for round := 0; round < rounds; round++ {
+		m := verifhook.NewTTLMap(8)
+		m.Set("k", 1, 1)
+		m.Set("other", 7, 100)
+		advance(2 * time.Second)
+		parallel(6, func(i int, r *rand.Rand) {
+			defer func() {
+				if recover() != nil {
+					panics.Add(1)
+				}
+			}()
+			if i < 4 {
+				m.Get("k")
+			} else {
+				m.Increment("k", 1, 100)
+			}
+		}, seed+int64(round))
+		func() {
+			defer func() {
+				if recover() != nil {
+					panics.Add(1)
+				}
+			}()
+			if v, ok, _ := m.GetInt("k"); ok {
+				present.Add(1)
+				if v == 1 || v == 2 {
+					valuesOK++
+				}
+			}
+		}()
+	}
+	tr.Emit(M{"e": "Totals", "what": "TTL map: rounds in which the re-created entry survived concurrent Get/Increment on an expired one", "expect": rounds, "got": present.Load()})
+	tr.Emit(M{"e": "Totals", "what": "TTL map: rounds in which the surviving counter is 1 or 2", "expect": rounds, "got": valuesOK})
+	tr.Emit(M{"e": "Totals", "what": "TTL map: panics", "expect": 0, "got": panics.Load()})
 }
 
 // stressRebal: requests through a rebalancer with the default code meter while servers are added, re-weighted and removed.
@@ -148,8 +209,8 @@ func stressRebal(cfg M, tr *Trace, seed int64) {
 			w.WriteHeader(500)
 		}
 	})
-	rr, _ := roundrobin.New(h)
-	rb, err := roundrobin.NewRebalancer(rr, roundrobin.RebalancerBackoff(time.Millisecond))
+	rr, _ := roundrobin.New(h, roundrobin.Logger(jitterLogger{}))
+	rb, err := roundrobin.NewRebalancer(rr, roundrobin.RebalancerBackoff(time.Millisecond), roundrobin.RebalancerLogger(jitterLogger{}))
 	if err != nil {
 		fatal("NewRebalancer: %v", err)
 	}
@@ -360,6 +421,7 @@ func stressStackAll(cfg M, tr *Trace, seed int64) {
 func init() {
 	stressors["metrics"] = stressMetrics
 	stressors["rate"] = stressRate
+	stressors["ttl"] = stressTTL
 	stressors["rebal"] = stressRebal
 	stressors["rebaladmin"] = stressRebalAdmin
 	stressors["stackall"] = stressStackAll
